@@ -132,7 +132,14 @@ Definition with_reg (sp dc : bool) (m : act) : act := fun s =>
 Definition run_undo (s : st) (u : undo) : st :=
   match u with
   | URm d => set_fs (frm d (fs s)) s
-  | UBack d v => set_ext (fset d v (ext s)) (set_fs (frm d (fs s)) s)
+  | UBack d _ =>
+      (* os.rename / shutil.move of whatever is at the artifact's path back to the source path; when the artifact is no
+         longer there (a removal inside the same block has already deleted it) the move fails, DatastoreTransaction.rollback
+         swallows the error, and the staged file is lost *)
+      match fget d (fs s) with
+      | Some w => set_ext (fset d w (ext s)) (set_fs (frm d (fs s)) s)
+      | None => s
+      end
   end.
 
 (* Datastore.transaction() *)
